@@ -4,7 +4,8 @@ CLAIM = ("Verdict of check/extract <=> (decoded length == recorded length AND CR
 ASSUMPTIONS = ["arch layer, stdio and header parser are stubs (arbitrary results)", "MacBinary members are excluded from verdict.* (os_type != 'm')"]
 R = ["lib/lha_reader.c", "lib/lha_basic_reader.c", "lib/lha_decoder.c", "lib/crc16.c"]
 X = ["lib/lha_basic_reader.c", "lib/lha_decoder.c", "lib/crc16.c"]
-HARNESSES = [
+from C16 import MAIN
+HARNESSES = [MAIN,
     dict(name="verdict.c2", src="C07/verdict.c", defines=["CH=2", "MAXCH=2", "calloc=verif_calloc", "fwrite=verif_fwrite", "fclose=verif_fclose", "memcpy=verif_memcpy"],
          rename_defs={"lib/lha_decoder.c": ["lha_decoder_for_name"]}, extra_srcs=X, unwind=5, unwindset={"do_decode.0": 4, "lha_decoder_read.0": 5, "verif_memcpy.0": 7, "check_progress_callback.0": 4, "ref_crc16_step.0": 9, "lha_crc16_buf.0": 5}, units=R, timeout=600, mem_gb=6,
          bounds="member of <= 2 chunks x <= 2 bytes, any recorded length (32 bit) and CRC, check and extract, fopen failure, short writes, unsupported method",
